@@ -30,7 +30,7 @@ COMPONENTS = {"real": ["synced_collections (working tree)", "real threading.Thre
 EXPECT_PROBES = {"quick": ["preempt_in_op", "lock_contended"], "thorough": ["preempt_in_op", "lock_contended"]}
 
 
-def build(seed, i, tier, readers=0, families=None, ctx=None):
+def build(seed, i, tier, readers=0, families=None, ctx=None, with_operands=True):
     ns = lib.load()
     rs = stream(seed, ID, i, "cfg")
     fresh = Fresh()
@@ -53,6 +53,24 @@ def build(seed, i, tier, readers=0, families=None, ctx=None):
             pre.append({"t": "op", "hid": parent, "name": "getitem", "args": [p[-1]], "keep": True, "hid_new": base + j})
             hpaths.append(p)
             hobj.append(o)
+    ntarget = len(hpaths)
+    # OPERAND object: one more object on the same file that no thread uses as a target; its root and children are handed
+    # to mutators as live synced ARGUMENTS ({"$handle": i}): a.extend(c), a.update(c['n']), a['x'] = c['l'] ... The
+    # argument's content is whatever the file holds when the operation takes effect (found + fixed: extend/+= copied
+    # a synced argument before taking the lock).
+    opnd = {}
+    if with_operands and rs.random() < 0.25:
+        pre.append({"t": "new_obj", "rid": 0, "wc": cfg["wc"]})
+        oroot = len(hpaths)
+        hpaths.append([])
+        hobj.append(nobj)
+        opnd[()] = oroot
+        for j, p in enumerate(paths):
+            parent = oroot if len(p) == 1 else oroot + 1 + (0 if j == 2 else 1)
+            pre.append({"t": "op", "hid": parent, "name": "getitem", "args": [p[-1]], "keep": True, "hid_new": oroot + 1 + j})
+            hpaths.append(p)
+            hobj.append(nobj)
+            opnd[tuple(p)] = oroot + 1 + j
     shape = rs.choice(["root", "root", "child", "child", "mixed"])
     nthreads = rs.choice([2, 2, 3])
     progs = []
@@ -65,17 +83,47 @@ def build(seed, i, tier, readers=0, families=None, ctx=None):
             if shape == "root":
                 h = rs.randrange(nobj)
             elif shape == "child":
-                h = rs.randrange(nobj, len(hpaths))
+                h = rs.randrange(nobj, ntarget)
             else:
-                h = rs.randrange(len(hpaths))
+                h = rs.randrange(ntarget)
             tp.append(h)
             used.append(hpaths[h])
         plan.append(tp)
+    # operands are chosen before the operations so that handle-safety protects their positions too
+    oplan = []
+    opnd_thread = rs.randrange(nthreads)   # only ONE thread reads through the operand object (reads through an object
+    for t, tp in enumerate(plan):          # that another thread is using are the open finding C14-F1)
+        row = []
+        for h in tp:
+            o = None
+            if opnd and t == opnd_thread and rs.random() < 0.6:
+                okey = rs.choice(sorted(opnd))
+                o = opnd[okey]
+                used.append(list(okey))
+            row.append(o)
+        oplan.append(row)
     for t, tp in enumerate(plan):
         ops = []
-        for h in tp:
+        for hi, h in enumerate(tp):
             c = get_path(init, hpaths[h])
             k = "dict" if isinstance(c, dict) else "list"
+            if oplan[t][hi] is not None:
+                oh = oplan[t][hi]
+                ok = "dict" if isinstance(get_path(init, hpaths[oh]), dict) else "list"
+                ref = {"$handle": oh}
+                if k == "dict":
+                    cand = [("setitem", [rs.choice(["x", "y", "a"]), ref]), ("setdefault", [rs.choice(["x", "y"]), ref])]
+                    if ok == "dict":
+                        cand += [("update", [ref]), ("update", [ref])] + ([("reset", [ref])] if _thr.allowed(hpaths[h], k, "reset", [], used) else [])
+                else:
+                    cand = [("append", [ref]), ("insert", [rs.randint(0, len(c)), ref])]
+                    if ok == "list":
+                        cand += [("extend", [ref]), ("extend", [ref]), ("iadd", [ref])]
+                cand = [(n, a) for n, a in cand if _thr.allowed(hpaths[h], k, n, a, used)]
+                if cand:
+                    name, args = cand[rs.randrange(len(cand))]
+                    ops.append({"h": h, "name": name, "args": args})
+                    continue
             for attempt in range(20):
                 name, args = _thr.gen_thread_op(rs, fresh, k, c)
                 if _thr.allowed(hpaths[h], k, name, args, used):
@@ -146,9 +194,7 @@ def run_one(seed, i, tier):
 
 
 def replay(payload):
-    from ..core.runner import run_isolated
-    out, v = run_isolated(run_payload, (payload,), timeout=RUN_TIMEOUT)
-    return v
+    return _thr.witness_replay(run_payload, payload, RUN_TIMEOUT)
 
 
 def minimise(payload, viol):
